@@ -1,9 +1,101 @@
+import Drx.Idx
+import Drx.IdxSpec
+import Drx.Codec
 import Drx.Drv.Util
 namespace Drx.Drv.Idx
-open Drx Drx.Drv
+open Drx Drx.Drv Drx.Idx Drx.IdxSpec
 
-/-- commands of the `idx` family (stub: nothing implemented yet) -/
+/-- "-" = empty list, else comma separated -/
+def items (s : String) : List String := if s = "-" then [] else s.splitOn ","
+
+/-- "x<hex>" (so that the empty byte string is the non-empty token "x") -/
+def xhex (s : String) : Option Bytes :=
+  match s.toList with
+  | 'x' :: rest => bytesOfHexAux rest []
+  | _ => none
+
+def codecDec (name : String) : Option Dec := (Codec.ofName name).map fun c => decodeText c
+
+def keyEntry (s : String) : Option KeyEntry :=
+  match s.splitOn ":" with
+  | [a, b, c] => do some ⟨← parseInt a, ← parseInt b, ← bytesOfHex c⟩
+  | _ => none
+
+def lctxEntry (s : String) : Option LctxEntry :=
+  match s.splitOn ":" with
+  | [a, b, c] => do some ⟨← parseNat a, ← parseInt b, ← parseInt c⟩
+  | _ => none
+
+def markerSpec (s : String) : Option MarkerSpec :=
+  match s.splitOn ":" with
+  | [a, b] => do some ⟨← parseInt a, ← xhex b⟩
+  | _ => none
+
+def hx (b : Bytes) : String := if b.isEmpty then "-" else hexOfBytes b
+
+/-- Drx/Json.lean leaves U+007F raw while Python's json.dumps escapes it; normalise here (core request filed) -/
+def fixDel (s : String) : String := s.replace (String.singleton (Char.ofNat 0x7f)) "\\u007f"
+
+def rJ' (f : α → J) (r : R α) : String := fixDel (rJ f r)
+
+def textsJ (l : List Text) : J := .arr (l.map J.str)
+
+/-- commands of the `idx` family (see harness/c17.py).  `enc…` commands apply the encoders of Drx/IdxSpec.lean
+    (the ones the theorems of DrxProps/C17.lean are about) to a spec object and print the bytes. -/
 def run : List String → Option String
+  | ["key", o, h] => do
+    let o ← parseOrder o; let b ← bytesOfHex h
+    some (rJ' keyDataJ (parseKey o b))
+  | ["enckey", o, u1, cap, es, tail] => do
+    let o ← parseOrder o; let u1 ← parseInt u1; let cap ← parseInt cap
+    let es ← (items es).mapM keyEntry; let tail ← bytesOfHex tail
+    some (hx (encKey o u1 cap es tail))
+  | ["group", es] => do
+    let es ← (items es).mapM keyEntry
+    some (keyDataJ (group es)).render
+  | ["keysupported", es] => do
+    -- the decidable `Supported` predicate of DrxProps/C17.lean (KeySupported), restated on the driver side
+    let es ← (items es).mapM keyEntry
+    some (match es.getLast? with | none => "true" | some l => if l.isLink then "false" else "true")
+  | ["cas", h] => do
+    let b ← bytesOfHex h
+    some (rJ' (fun l => J.arr (l.map J.int)) (parseCas b))
+  | ["enccas", vs, tail] => do
+    let vs ← (items vs).mapM parseInt; let tail ← bytesOfHex tail
+    some (hx (encCas vs tail))
+  | ["lctx", h] => do
+    let b ← bytesOfHex h
+    some (rJ' (fun l => J.arr (l.map LctxRef.toJ)) (parseLctx b))
+  | ["enclctx", u1, u2, n2, gap, es, tail] => do
+    let u1 ← parseInt u1; let u2 ← parseInt u2; let n2 ← parseInt n2; let gap ← bytesOfHex gap
+    let es ← (items es).mapM lctxEntry; let tail ← bytesOfHex tail
+    some (hx (encLctx u1 u2 n2 gap es tail))
+  | ["lnam", c, h] => do
+    let dec ← codecDec c; let b ← bytesOfHex h
+    some (rJ' textsJ (parseLnam dec b))
+  | ["enclnam", u1, u2, fs, u3, names, tail] => do
+    let u1 ← parseInt u1; let u2 ← parseInt u2; let fs ← parseInt fs; let u3 ← parseInt u3
+    let names ← (items names).mapM xhex; let tail ← bytesOfHex tail
+    some (hx (encLnam u1 u2 fs u3 names tail))
+  | ["vwlb", c, h] => do
+    let dec ← codecDec c; let b ← bytesOfHex h
+    some (rJ' (fun l => J.arr (l.map Marker.toJ)) (parseVwlb dec b))
+  | ["encvwlb", sf, ms, tail] => do
+    let sf ← parseInt sf; let ms ← (items ms).mapM markerSpec; let tail ← bytesOfHex tail
+    some (hx (encVwlb ms sf tail))
+  | ["vwcf", h] => do
+    let b ← bytesOfHex h
+    some (rJ' Vwcf.toJ (parseVwcf b))
+  | ["encvwcf", w, top, left, bottom, right, cs, ce, rate, f1, color, f2, p46, f3, p4e, tail] => do
+    let w ← parseNat w; let top ← parseInt top; let left ← parseInt left; let bottom ← parseInt bottom
+    let right ← parseInt right; let cs ← parseInt cs; let ce ← parseInt ce; let rate ← parseInt rate
+    let f1 ← bytesOfHex f1; let color ← parseNat color; let f2 ← bytesOfHex f2; let p46 ← parseInt p46
+    let f3 ← bytesOfHex f3; let p4e ← parseInt p4e; let tail ← bytesOfHex tail
+    some (hx (encVwcf ⟨w, top, left, bottom, right, cs, ce, rate, f1, UInt8.ofNat color, f2, p46, f3, p4e, tail⟩))
+  | ["vclass", w] => do
+    let w ← parseNat w
+    let cls := specClass (w / 256) (w % 256)
+    some (J.arr [J.s cls.name, match paletteOffset cls with | some off => J.nat off | none => J.null]).render
   | _ => none
 
 end Drx.Drv.Idx
